@@ -145,16 +145,26 @@ theorem len4 (l : Bytes) (h : l.length = 4) : ∃ a b c d, l = [a, b, c, d] := b
   | [a, b, c, d], _ => exact ⟨a, b, c, d, rfl⟩
 
 theorem readCb_text (t sz cat : Nat) (pm pu b rest : Bytes) (hm : pm.length = 4) (hu : pu.length = 4)
-    (hb : b.length = sz) (hne : b ++ rest ≠ []) :
+    (hb : b.length = sz) :
     readCb ([t, 65, sz, cat] ++ pm ++ pu ++ (b ++ rest))
       = .ok (⟨t, 65, sz, cat, pm, pu, some (.bytes b)⟩, rest) := by
   obtain ⟨m0, m1, m2, m3, rfl⟩ := len4 pm hm
   obtain ⟨u0, u1, u2, u3, rfl⟩ := len4 pu hu
   subst hb
-  have h12 : unpackN 12 (t :: 65 :: b.length :: cat :: m0 :: m1 :: m2 :: m3 :: u0 :: u1 :: u2 :: u3 :: (b ++ rest))
-      = .ok ([t, 65, b.length, cat, m0, m1, m2, m3, u0, u1, u2, u3], b ++ rest) := by
-    simp [unpackN, readLr]
-  simp [readCb, h12, readLr_append b rest hne]
+  cases b with
+  | nil =>
+    have h12 : unpackN 12 (t :: 65 :: 0 :: cat :: m0 :: m1 :: m2 :: m3 :: u0 :: u1 :: u2 :: u3 :: rest)
+        = .ok ([t, 65, 0, cat, m0, m1, m2, m3, u0, u1, u2, u3], rest) := by
+      simp [unpackN, readLr]
+    simp [readCb, h12]
+  | cons x xs =>
+    have h12 : unpackN 12 (t :: 65 :: (xs.length + 1) :: cat :: m0 :: m1 :: m2 :: m3 :: u0 :: u1 :: u2 :: u3 :: x :: (xs ++ rest))
+        = .ok ([t, 65, xs.length + 1, cat, m0, m1, m2, m3, u0, u1, u2, u3], x :: (xs ++ rest)) := by
+      simp [unpackN, readLr]
+    have hr : readLr (xs.length + 1) (x :: (xs ++ rest)) = (some (x :: xs), rest) := by
+      have := readLr_append (x :: xs) rest (by simp)
+      simpa using this
+    simp [readCb, h12, hr]
 
 theorem readCb_num (t rc sz cat : Nat) (pm pu vb rest : Bytes) (v : Val) (hm : pm.length = 4) (hu : pu.length = 4)
     (hrc : rc ≠ 65) (hread : readNum rc (vb ++ rest) = .ok (v, rest)) :
@@ -209,10 +219,10 @@ theorem cbWrite_eq (t : Nat) (v : Val) (m : Bytes) (u : Option Bytes) (ht : t = 
       · first | rfl | simp [hv.1, hv.2]
 
 /-- **one component block survives**: a block with 4-byte mnemonic and units holding a legal value, written by
-`CbEngVal.lisBytes`, is read back by `CbEngValRead` with the value passed through `rtVal` — provided it is not an empty
-byte string at the very end of the logical data. -/
+`CbEngVal.lisBytes`, is read back by `CbEngValRead` with the value passed through `rtVal` (also an empty byte string at
+the very end of the logical data). -/
 theorem cb_enc_read (t : Nat) (v : Val) (m un : Bytes) (rest : Bytes) (ht : t < 256) (hv : v.legal)
-    (hm : m.length = 4) (hu : un.length = 4) (hne : v = .bytes [] → rest ≠ []) :
+    (hm : m.length = 4) (hu : un.length = 4) :
     ∃ bs, encCb ⟨t, rcOf v, sizeOf v, 0, m, un, some v⟩ = .ok bs ∧ bs.length ≥ 12 ∧
       readCb (bs ++ rest) = .ok (⟨t, rcOf v, sizeOf v, 0, m, un, some (rtVal v)⟩, rest) := by
   have hsz : sizeOf v < 256 := by
@@ -233,12 +243,7 @@ theorem cb_enc_read (t : Nat) (v : Val) (m un : Bytes) (rest : Bytes) (ht : t < 
       simp [encCb, hfields, encVal, padTo_eq_self 4 m hm, padTo_eq_self 4 un hu]
       omega
     · simp [hm, hu] <;> omega
-    · have hne' : b ++ rest ≠ [] := by
-        intro h
-        have hb : b = [] := (List.append_eq_nil_iff.1 h).1
-        have hr : rest = [] := (List.append_eq_nil_iff.1 h).2
-        exact hne (by rw [hb]) hr
-      have := readCb_text t b.length 0 m un b rest hm hu rfl hne'
+    · have := readCb_text t b.length 0 m un b rest hm hu rfl
       simpa [rcOf, sizeOf, rtVal, List.append_assoc] using this
   | float d =>
     obtain ⟨vb, henc, _, hread⟩ := readNum_encVal (.float d) hv (by intro b h; cases h) rest
